@@ -26,7 +26,7 @@ Hypotheses, all explicit:
   real algorithm misses a present item.
 * an operation sequence is *valid* when every non-erased item it pushes is in play.
 -/
-import Woodpile.Proofs.SortedDequeConv
+import Woodpile.Proofs.SortedDequeRun
 
 namespace Woodpile.Props.C16
 open Woodpile.SortedDeque
@@ -246,6 +246,208 @@ theorem pair_run_refines (ops : List (Op (Nat × Option Nat) Nat)) :
     obtain ⟨s', h1, h2, _⟩ := this
     exact ⟨s', h1, h2⟩
 
+/-! ### Run-level clauses (claim-audit gap 17): persistence, any start state, whole items -/
+
+/-- **Iteration is ascending from any state**, not only from `[]`: from every strictly
+sorted map (in particular the present items of any state the real deque can be in, see
+`reachable_sorted`, and of any container handed to `new`), after every run the map is
+strictly sorted and every list returned by an iteration along the way was strictly sorted. -/
+theorem reference_sorted_from (hc : c.Lawful) (m0 : List α) (h0 : Sorted c m0) (ops : List (Op α κ))
+    (rs : List (Ret α)) (m : List α) (h : runRef c m0 ops = some (rs, m)) :
+    Sorted c m ∧ ∀ r ∈ rs, ∀ l, r = .items l → Sorted c l :=
+  runRef_sorted hc m0 h0 ops rs m h
+
+/-- … and the states of the real deque are such starts: under the invariant (every state
+reached by valid operations from `Default::default()` or from an entitled `new(container)`)
+the present items are strictly sorted, `iter()` returns exactly them, and the same holds
+after any further valid run, for every iteration result in it. -/
+theorem reachable_sorted (hc : c.Lawful) (he : EraseOrder c P) (s : SortedDeque α) (hs : SInv c P s)
+    (ops : List (Op α κ)) (hv : ∀ op ∈ ops, ValidOp c P op) (rs : List (Ret α)) (s' : SortedDeque α)
+    (hrun : run c s ops = some (rs, s')) :
+    Sorted c (abs c s) ∧ SortedDeque.iter c s = some (abs c s) ∧
+    Sorted c (abs c s') ∧ SortedDeque.iter c s' = some (abs c s') ∧
+    ∀ r ∈ rs, ∀ l, r = .items l → Sorted c l := by
+  obtain ⟨h1, h2⟩ := run_eq_runRef hc he hs ops hv rs s' hrun
+  obtain ⟨h3, h4⟩ := runRef_sorted hc _ (hs.abs_sorted he) ops rs _ h1
+  exact ⟨hs.abs_sorted he, SortedDeque.iter_spec hs, h3, SortedDeque.iter_spec h2, h4⟩
+
+/-- **Present keys are found, on the model of the real code**, in every state under the
+invariant (not only on the reference, and not only from `[]`): `find(key x)` returns `x`
+itself - key and value - for every present `x`, and an item `find` returns is present. -/
+theorem present_key_found_impl (hc : c.Lawful) (he : EraseOrder c P) (s : SortedDeque α) (hs : SInv c P s) :
+    (∀ x ∈ abs c s, SortedDeque.find c s (c.key x) = some (some x)) ∧
+    (∀ k y, SortedDeque.find c s k = some (some y) → y ∈ abs c s ∧ c.cmp (c.key y) k = .eq) := by
+  refine ⟨fun x hx => ?_, fun k y h => ?_⟩
+  · rw [SortedDeque.find_spec hc he hs, find_present hc (hs.abs_sorted he) hx]
+  · rw [SortedDeque.find_spec hc he hs] at h
+    simp only [Option.some.injEq] at h
+    exact ⟨List.mem_of_find?_eq_some h, by simpa using List.find?_some h⟩
+
+/-- **Gone stays gone** (reference map, any later state).  Let some operation make a
+present item `x` vanish from the (strictly sorted) map - `remove` of its key, a
+`pop_first` / `pop_last` that returned it, or `clear`.  Then along EVERY continuation `ops`
+that does not push a live item with `x`'s key again (`hno`), at its end and - `ops` being
+arbitrary - after each of its prefixes: no present item has `x`'s key, no result of any
+operation (`find`, `remove`, pops, `first`/`last`, iteration) contains an item with that
+key, and `find(key x)` answers `None`. -/
+theorem gone_stays_gone (hc : c.Lawful) (m1 m2 : List α) (hs : Sorted c m1) (op : Op α κ) (r : Ret α)
+    (hstep : stepRef c m1 op = some (r, m2)) (x : α) (hx : x ∈ m1) (hgone : x ∉ m2)
+    (ops : List (Op α κ))
+    (hno : ∀ y, Op.push y ∈ ops → c.isErased y = false → c.cmp (c.key y) (c.key x) ≠ .eq)
+    (rs : List (Ret α)) (m3 : List α) (hrun : runRef c m2 ops = some (rs, m3)) :
+    (∀ y ∈ m3, c.cmp (c.key y) (c.key x) ≠ .eq) ∧
+    (∀ r ∈ rs, ∀ y ∈ r.returned, c.cmp (c.key y) (c.key x) ≠ .eq) ∧
+    stepRef c m3 (.find (c.key x)) = some (.item none, m3) := by
+  have h2 := absent_after_vanish hc hs hstep hx hgone
+  obtain ⟨a, b⟩ := runRef_absent (c.key x) m2 h2 ops hno rs m3 hrun
+  exact ⟨a, b, find_absent a⟩
+
+/-- The operations that make an item vanish do: after `remove(key x)` of a present `x`,
+and after a pop that returned `x`, `x` is not in the map. -/
+theorem removed_or_popped_vanishes (hc : c.Lawful) (m : List α) (hs : Sorted c m) (x : α) :
+    (x ∈ m → ∀ r m', stepRef c m (.remove (c.key x)) = some (r, m') → r = .item (some x) ∧ x ∉ m') ∧
+    (∀ m', stepRef c m .popFirst = some (.item (some x), m') → x ∈ m ∧ x ∉ m') ∧
+    (∀ m', stepRef c m .popLast = some (.item (some x), m') → x ∈ m ∧ x ∉ m') := by
+  refine ⟨?_, ?_, ?_⟩
+  · intro hx r m' h
+    simp only [stepRef, Option.some.injEq, Prod.mk.injEq] at h
+    obtain ⟨rfl, rfl⟩ := h
+    refine ⟨by rw [find_present hc hs hx], ?_⟩
+    intro hm
+    have := (List.mem_filter.1 hm).2
+    simp [hc.refl] at this
+  · intro m' h
+    simp only [stepRef, Option.some.injEq, Prod.mk.injEq, Ret.item.injEq] at h
+    obtain ⟨h1, rfl⟩ := h
+    obtain ⟨t, rfl⟩ := List.head?_eq_some_iff.1 h1
+    refine ⟨by simp, ?_⟩
+    intro hm
+    simp only [List.drop_succ_cons, List.drop_zero] at hm
+    have := (List.pairwise_cons.1 hs).1 x hm
+    rw [hc.refl] at this; cases this
+  · intro m' h
+    simp only [stepRef, Option.some.injEq, Prod.mk.injEq, Ret.item.injEq] at h
+    obtain ⟨h1, rfl⟩ := h
+    obtain ⟨ys, rfl⟩ := List.getLast?_eq_some_iff.1 h1
+    refine ⟨by simp, ?_⟩
+    intro hm
+    simp only [List.dropLast_concat] at hm
+    have := (List.pairwise_append.1 hs).2.2 x hm x (by simp)
+    rw [hc.refl] at this; cases this
+
+/-- **Increasing keys** (the histories the property speaks of: "push_back_or_panic with
+increasing keys").  If the live items a history pushes are in strictly increasing key order
+over the whole history, then from `[]` the reference run never hits the specified panic, and
+an item that vanishes at some point can never come back: no `hno` side condition is
+needed, every later push has a strictly greater key. -/
+theorem gone_stays_gone_increasing (hc : c.Lawful) (ops1 : List (Op α κ)) (op : Op α κ) (ops2 : List (Op α κ))
+    (hinc : IncreasingPushes c (ops1 ++ op :: ops2)) :
+    (runRef c [] (ops1 ++ op :: ops2)).isSome = true ∧
+    ∀ rs1 m1 r m2 rs2 m3, runRef c [] ops1 = some (rs1, m1) → stepRef c m1 op = some (r, m2) →
+      runRef c m2 ops2 = some (rs2, m3) → ∀ x ∈ m1, x ∉ m2 →
+      (∀ y ∈ m3, c.cmp (c.key y) (c.key x) ≠ .eq) ∧
+      (∀ r ∈ rs2, ∀ y ∈ r.returned, c.cmp (c.key y) (c.key x) ≠ .eq) ∧
+      stepRef c m3 (.find (c.key x)) = some (.item none, m3) := by
+  refine ⟨runRef_increasing_isSome [] _ hinc (by simp), ?_⟩
+  intro rs1 m1 r m2 rs2 m3 h1 h2 h3 x hx hgone
+  have hs1 : Sorted c m1 := (runRef_sorted hc [] (by simp [Sorted]) ops1 rs1 m1 h1).1
+  have hxp : x ∈ pushedLive c ops1 := by
+    rcases runRef_subset_pushed [] ops1 rs1 m1 h1 x hx with h | h
+    · simp at h
+    · exact h
+  refine gone_stays_gone hc m1 m2 hs1 op r h2 x hx hgone ops2 ?_ rs2 m3 h3
+  intro y hy he
+  have hyp : y ∈ pushedLive c ops2 := mem_pushedLive.2 ⟨hy, he⟩
+  unfold IncreasingPushes at hinc
+  rw [pushedLive_append, show op :: ops2 = [op] ++ ops2 from rfl, pushedLive_append] at hinc
+  have := (List.pairwise_append.1 hinc).2.2 x hxp y (List.mem_append_right _ hyp)
+  rw [hc.gt_of_lt this]; decide
+
+/-- **Gone stays gone, on the model of the real code.**  From any state satisfying the
+invariant: if a valid operation makes the present item `x` vanish, then in every later
+state of every valid continuation that does not push `x`'s key again, `find(key x)` is
+`None`, `iter()` contains no item with that key, and no operation along the way returned
+one. -/
+theorem gone_stays_gone_impl (hc : c.Lawful) (he : EraseOrder c P) (s : SortedDeque α) (hs : SInv c P s)
+    (op : Op α κ) (hvo : ValidOp c P op) (r : Ret α) (s1 : SortedDeque α)
+    (hstep : step c s op = some (r, s1)) (x : α) (hx : x ∈ abs c s) (hgone : x ∉ abs c s1)
+    (ops : List (Op α κ)) (hv : ∀ o ∈ ops, ValidOp c P o)
+    (hno : ∀ y, Op.push y ∈ ops → c.isErased y = false → c.cmp (c.key y) (c.key x) ≠ .eq)
+    (rs : List (Ret α)) (s2 : SortedDeque α) (hrun : run c s1 ops = some (rs, s2)) :
+    SortedDeque.find c s2 (c.key x) = some none ∧
+    (∃ l, SortedDeque.iter c s2 = some l ∧ ∀ y ∈ l, c.cmp (c.key y) (c.key x) ≠ .eq) ∧
+    (∀ r ∈ rs, ∀ y ∈ r.returned, c.cmp (c.key y) (c.key x) ≠ .eq) := by
+  have h1 := step_spec hc he hs op hvo
+  cases hr : stepRef c (abs c s) op with
+  | none => rw [hr] at h1; simp only at h1; rw [h1] at hstep; cases hstep
+  | some p =>
+    obtain ⟨r', m1⟩ := p
+    rw [hr] at h1
+    obtain ⟨s1', e1, e2, hs1⟩ := h1
+    rw [e1] at hstep
+    simp only [Option.some.injEq, Prod.mk.injEq] at hstep
+    obtain ⟨rfl, rfl⟩ := hstep
+    obtain ⟨h2, hs2⟩ := run_eq_runRef hc he hs1 ops hv rs s2 hrun
+    rw [e2] at h2
+    rw [e2] at hgone
+    obtain ⟨a, b, _⟩ := gone_stays_gone hc (abs c s) m1 (hs.abs_sorted he) op r' hr x hx hgone ops hno rs _ h2
+    refine ⟨?_, ⟨abs c s2, SortedDeque.iter_spec hs2, a⟩, b⟩
+    rw [SortedDeque.find_spec hc he hs2]
+    have : (abs c s2).find? (fun y => c.cmp (c.key y) (c.key x) == .eq) = none := by
+      rw [List.find?_eq_none]; intro y hy; simpa using a y hy
+    rw [this]
+
+/-- **Whole-item convention, run level.**  For the whole-item ordering (`wholeCmp`, the
+crate's `TestItem` / the harness's `WItem`) every history is refined as soon as it passes
+the decidable check `wholeKeysDistinct`: among the live items the history pushes, the
+key field determines the item.  (Necessary: `whole_item_needs_distinct_keys`.) -/
+theorem whole_run_refines (ops : List (Op (Nat × Option Nat) (Nat × Option Nat)))
+    (hd : wholeKeysDistinct ops = true) :
+    match runRef wholeCmp [] ops with
+    | none => run wholeCmp SortedDeque.empty ops = none
+    | some (rs, m) => ∃ s', run wholeCmp SortedDeque.empty ops = some (rs, s') ∧ abs wholeCmp s' = m := by
+  have hv := valid_of_pushedLive (c := wholeCmp) (ops := ops)
+  have := run_refines_ordered_map wholeCmp_lawful (wholeCmp_eraseOrder (wholeKeysDistinct_spec hd)) ops hv
+  cases hr : runRef wholeCmp [] ops with
+  | none => rw [hr] at this; exact this
+  | some p =>
+    obtain ⟨rs, m⟩ := p
+    rw [hr] at this
+    obtain ⟨s', h1, h2, _⟩ := this
+    exact ⟨s', h1, h2⟩
+
+/-- The condition is discharged for the regime of the `sorted` correspondence family
+(harness/src/fam_sorted.rs: `value = 10 * key + 1`), and more generally whenever the
+pushed value is a function `f` of the key: such a history passes `wholeKeysDistinct`, so
+`whole_run_refines` applies to every history the family generates in that regime. -/
+theorem whole_run_refines_of_keyed_values (f : Nat → Nat)
+    (ops : List (Op (Nat × Option Nat) (Nat × Option Nat)))
+    (hf : ∀ x, Op.push x ∈ ops → x.2 = none ∨ x.2 = some (f x.1)) :
+    wholeKeysDistinct ops = true ∧
+    match runRef wholeCmp [] ops with
+    | none => run wholeCmp SortedDeque.empty ops = none
+    | some (rs, m) => ∃ s', run wholeCmp SortedDeque.empty ops = some (rs, s') ∧ abs wholeCmp s' = m := by
+  have hd : wholeKeysDistinct ops = true := by
+    simp only [wholeKeysDistinct, List.all_eq_true, Bool.or_eq_true, bne_iff_ne, ne_eq, beq_iff_eq]
+    intro x hx y hy
+    obtain ⟨hx1, hx2⟩ := mem_pushedLive.1 hx
+    obtain ⟨hy1, hy2⟩ := mem_pushedLive.1 hy
+    by_cases hk : x.1 = y.1
+    · right
+      obtain ⟨x1, x2⟩ := x
+      obtain ⟨y1, y2⟩ := y
+      simp only at hk; subst hk
+      have a := hf _ hx1
+      have b := hf _ hy1
+      simp only [wholeCmp, Option.isNone_eq_false_iff, Option.isSome_iff_exists] at hx2 hy2
+      rcases a with a | a
+      · simp only at a; subst a; obtain ⟨_, h⟩ := hx2; cases h
+      · rcases b with b | b
+        · simp only at b; subst b; obtain ⟨_, h⟩ := hy2; cases h
+        · simp only at a b; rw [a, b]
+    · left; exact hk
+  exact ⟨hd, whole_run_refines ops hd⟩
+
 end Woodpile.Props.C16
 
 namespace Woodpile.Props.C16
@@ -290,5 +492,22 @@ example :
        .find (2, some 21), .find (1, some 11), .popLast, .last]).map (·.1) =
     some [.unit, .unit, .unit, .item (some (2, some 21)), .item none, .item none, .item (some (1, some 11)),
       .item (some (3, some 31)), .item (some (1, some 11))] := by decide
+
+-- gone stays gone is not vacuous: a middle removal, a pop of each end, then later ops; the removed
+-- key 2 can be pushed again once everything above it is gone (so `hno` is a real side condition) …
+example : (runRef pairCmp [] [.push (1, some 10), .push (2, some 20), .push (3, some 30), .remove 2,
+      .popLast, .push (2, some 21), .find 2]).map (·.1) =
+    some [.unit, .unit, .unit, .item (some (2, some 20)), .item (some (3, some 30)), .unit,
+      .item (some (2, some 21))] := by decide
+-- … which a history with increasing pushes never does
+example : IncreasingPushes pairCmp
+    [.push (1, some 10), .push (2, some 20), .remove 1, .push (2, none), .push (5, some 50), .popLast] := by
+  simp [IncreasingPushes, pushedLive, Sorted, pairCmp]; decide
+example : ¬ IncreasingPushes pairCmp [.push (2, some 20), .popLast, .push (2, some 21)] := by
+  simp [IncreasingPushes, pushedLive, Sorted, pairCmp]
+-- the checkable whole-item condition: accepts the harness regime, rejects the O2 history
+example : wholeKeysDistinct [.push (1, some 11), .push (2, some 21), .remove (2, some 21), .push (3, some 31)] = true := by
+  decide
+example : wholeKeysDistinct [.push (1, some 1), .push (1, some 2), .push (1, some 3)] = false := by decide
 
 end Woodpile.Props.C16
